@@ -59,7 +59,7 @@ func init() {
 			"a locally created vertex gets calcNewWeight of the same two parents it references and NewVertex returns only a signed value whose hash and signature come from signer.Sign(initData()). "+
 			"Acyclicity (heimdalr's AddEdge loop check), the arithmetic in calcNewWeight and the state after truncation are not decided.",
 		runC09)
-	register("C10", []string{"./accountant"},
+	register("C10", []string{"./accountant", "./gossip", "./notaryserver"},
 		"Structural necessary conditions of the sealing rules: on every entry point the insertion (or the hand-over to the admission path) lies behind the rejecting edge of each rule's comparison, with operands bound by access path "+
 			"(issuer vs. sealing node, issuer vs. genesis wallet, empty transaction, genesis receiver vs. issuer, DAG loaded), the loaded flag of a synced ledger is unreachable after any cancel, and the admission path has no other callers — "+
 			"so everything replayed from the orphan buffer went through the same guards.",
@@ -544,6 +544,7 @@ func genesisReceiverUsed(fn *ssa.Function) func(ssa.Value) bool {
 
 func runC10(w *World, r *Report) {
 	r.NotDecided = []string{"that the configured genesis wallet never signs (deployment)", "ledgers imported by means other than the three entry points"}
+	handedOverVertexIsFresh(w, r, "handed-over-vertex-is-fresh")
 	type guard struct {
 		label string
 		edges gspec
@@ -1198,6 +1199,8 @@ func runC13(w *World, r *Report) {
 		}
 	}
 
+	handedOverVertexIsFresh(w, r, "handed-over-vertex-is-fresh")
+
 	r.rule("replayed-vertex-verified", "a parked vertex re-enters through addLeafMemorized, where the insertion lies behind verify on every path — whatever the retry counter says", 1)
 	gossipVerifyBeforeAdmit(w, r, "replayed-vertex-verified")
 
@@ -1404,6 +1407,7 @@ func runC14(w *World, r *Report) {
 	syncGuardObligations(w, r, "malformed-stream-refused")
 
 	reserveBeforeInsert(w, r, "duplicate-transaction-refused", "LoadDag", 1)
+	linkSkipsArePerVertex(w, r, "link-skips-are-per-vertex")
 
 	// transport: a stream that broke is not mistaken for one that ended
 	r.rule("transport-reports-failure", "serving handler: the error of stream.Send can reach the handler's result; loading client: the errors of stream.Recv and of the vertex mapping can reach updateDag's result (a broken stream is not reported as a clean end)", 2)
@@ -1648,4 +1652,248 @@ func deletesTip(w *World, fn *ssa.Function, at ssa.Instruction, x ssa.Value) (bo
 		return true, ""
 	}
 	return false, fmt.Sprintf("vertex %s looked up by %q is deleted without IsLeaf(%s) == true on the path: its children would keep a parent that is neither live nor checkpointed", v, lookupArg, lookupArg)
+}
+
+
+// handedOverVertexIsFresh: the ledger keeps the pointer it is given (a vertex whose parent is unknown is parked and
+// replayed later WITHOUT the entry guards of AddLeaf, on the strength of having passed them once). The object handed to
+// AddLeaf must therefore be storage that nobody reuses: a variable or allocation of the calling function (possibly
+// passed down through helpers), never an object taken from a pool, a package-level variable or a field of a long-lived
+// struct.
+func handedOverVertexIsFresh(w *World, r *Report, rule string) {
+	r.rule(rule, "every *Vertex handed to AddLeaf from the serving packages is storage allocated by the calling operation itself (followed up through helper parameters): not a pooled object, a global or a field of a long-lived struct — the ledger parks and replays the very pointer it was given", 2)
+	n := 0
+	for _, fn := range w.RepoFuncs("gossip", "notaryserver", "accountant") {
+		instrsOf(fn, func(in ssa.Instruction) {
+			c, ok := in.(ssa.CallInstruction)
+			if !ok {
+				return
+			}
+			name := calleeName(c)
+			if !strings.HasSuffix(name, ").AddLeaf") {
+				return
+			}
+			_, a := callArgs(c)
+			if len(a) < 2 {
+				return
+			}
+			if pt, ok := a[1].Type().Underlying().(*types.Pointer); !ok || !strings.HasSuffix(pt.Elem().String(), "accountant.Vertex") {
+				return
+			}
+			n++
+			bad := freshPointer(w, a[1], 3, map[ssa.Value]bool{})
+			r.check(bad == "", rule, shortFn(fn)+"/AddLeaf", lineOf(w, c), "the vertex handed to the ledger is the caller's own fresh storage", bad)
+		})
+	}
+	if n == 0 {
+		r.bad(rule, "AddLeaf", "-", "calls handing a vertex to the ledger are found", "none")
+	}
+}
+
+// freshPointer returns "" when every origin of pointer v is an allocation of the operation; otherwise what it is.
+func freshPointer(w *World, v ssa.Value, up int, seen map[ssa.Value]bool) string {
+	if v == nil || seen[v] {
+		return ""
+	}
+	seen[v] = true
+	switch x := v.(type) {
+	case *ssa.Alloc:
+		return ""
+	case *ssa.ChangeType:
+		return freshPointer(w, x.X, up, seen)
+	case *ssa.MakeInterface:
+		return freshPointer(w, x.X, up, seen)
+	case *ssa.Phi:
+		for _, e := range x.Edges {
+			if b := freshPointer(w, e, up, seen); b != "" {
+				return b
+			}
+		}
+		return ""
+	case *ssa.Const:
+		return ""
+	case *ssa.TypeAssert:
+		return freshPointer(w, x.X, up, seen)
+	case *ssa.Extract:
+		return freshPointer(w, x.Tuple, up, seen)
+	case *ssa.Parameter:
+		fn := x.Parent()
+		if up <= 0 || fn.Object() == nil {
+			return "parameter " + x.Name() + " of " + shortFn(fn) + " (callers not followed further)"
+		}
+		if fn.Object().Exported() {
+			return "" // handed in by the user of the package: its own responsibility (AddLeaf itself is such an entry)
+		}
+		for _, cs := range staticCallers(w, fn) {
+			for k, p := range fn.Params {
+				if p == x && k < len(cs.Common().Args) {
+					if b := freshPointer(w, cs.Common().Args[k], up-1, seen); b != "" {
+						return b
+					}
+				}
+			}
+		}
+		return ""
+	case *ssa.Call:
+		cal := x.Call.StaticCallee()
+		if cal != nil && isRepoFunc(cal) && len(cal.Blocks) > 0 && up > 0 {
+			// a repo constructor: what it returns
+			for _, ret := range returnsOf(cal) {
+				for _, rv := range ret.Results {
+					if _, isPtr := rv.Type().Underlying().(*types.Pointer); isPtr {
+						if b := freshPointer(w, rv, up-1, seen); b != "" {
+							return b
+						}
+					}
+				}
+			}
+			return ""
+		}
+		return "the result of " + shortCallee(x) + " (an object that outlives the call, e.g. taken from a pool)"
+	case *ssa.UnOp:
+		return "loaded from " + pathOf(x) + " (shared storage)"
+	case *ssa.FieldAddr, *ssa.IndexAddr, *ssa.Global:
+		return "the address of " + pathOf(v) + " (shared storage)"
+	}
+	return fmt.Sprintf("%T %s", v, pathOf(v))
+}
+
+// ---------------------------------------------------------------------------------------------
+// C14: what lets LoadDag skip the link to a declared parent is scoped to one vertex
+
+// onCycleWith: blocks a and b of one function lie on a common cycle (each reachable from the other).
+func onCycleWith(a, b *ssa.BasicBlock) bool {
+	ra := reachable(a.Succs, nil)
+	if !ra[b] && a != b {
+		return false
+	}
+	rb := reachable(b.Succs, nil)
+	return rb[a]
+}
+
+// skipStateOf collects the mutable local state (variables, maps) the condition value depends on.
+func skipStateOf(v ssa.Value, seen map[ssa.Value]bool, out *[]ssa.Value) {
+	if v == nil || seen[v] {
+		return
+	}
+	seen[v] = true
+	switch x := v.(type) {
+	case *ssa.BinOp:
+		skipStateOf(x.X, seen, out)
+		skipStateOf(x.Y, seen, out)
+	case *ssa.UnOp:
+		if x.Op == token.MUL {
+			switch c := x.X.(type) {
+			case *ssa.Alloc:
+				if isSourceVar(c) {
+					*out = append(*out, c)
+				}
+				return
+			case *ssa.FreeVar:
+				*out = append(*out, c)
+				return
+			}
+		}
+		skipStateOf(x.X, seen, out)
+	case *ssa.Extract:
+		skipStateOf(x.Tuple, seen, out)
+	case *ssa.Lookup:
+		skipStateOf(x.X, seen, out)
+	case *ssa.MakeMap:
+		*out = append(*out, x)
+	case *ssa.Phi:
+		for _, e := range x.Edges {
+			skipStateOf(e, seen, out)
+		}
+	case *ssa.ChangeType:
+		skipStateOf(x.X, seen, out)
+	case *ssa.Convert:
+		skipStateOf(x.X, seen, out)
+	case *ssa.Parameter:
+		if _, isMap := x.Type().Underlying().(*types.Map); isMap {
+			*out = append(*out, x)
+		} else if _, isPtr := x.Type().Underlying().(*types.Pointer); isPtr {
+			*out = append(*out, x)
+		}
+	case *ssa.Call:
+		if b, ok := x.Call.Value.(*ssa.Builtin); ok && b.Name() == "len" {
+			skipStateOf(x.Call.Args[0], seen, out)
+		}
+	}
+}
+
+func linkSkipsArePerVertex(w *World, r *Report, rule string) {
+	r.rule(rule, "in LoadDag a branch that can bypass AddEdge for a declared parent depends only on state that is created anew for every loaded vertex (the left == right dedupe); state that lives across vertices would drop the second edge of a fork", 1)
+	f := w.fx(r, "accountant", "AccountingBook", "LoadDag")
+	if f == nil {
+		return
+	}
+	n := 0
+	for _, d := range deepCalls(f.fn, byName(nAddEdge), deepDepth) {
+		// levels: the host of AddEdge and every function on the chain, each with the instruction that leads to the edge
+		type level struct {
+			fn   *ssa.Function
+			site ssa.Instruction
+		}
+		levels := []level{{d.c.Parent(), d.c.(ssa.Instruction)}}
+		for i := len(d.chain) - 1; i >= 0; i-- {
+			levels = append(levels, level{d.chain[i].Parent(), d.chain[i].(ssa.Instruction)})
+		}
+		// loopAbove[i]: some call site above level i sits in a loop (the function of level i runs once per iteration)
+		loopAbove := make([]bool, len(levels))
+		for i := len(levels) - 2; i >= 0; i-- {
+			up := levels[i+1]
+			loopAbove[i] = loopAbove[i+1] || onCycleWith(up.site.Block(), up.site.Block())
+		}
+		bad := ""
+		for li, lv := range levels {
+			siteB := lv.site.Block()
+			for _, b := range lv.fn.Blocks {
+				iff, ok := b.Instrs[len(b.Instrs)-1].(*ssa.If)
+				if !ok || len(b.Succs) != 2 {
+					continue
+				}
+				// a skip-branch: the link is reachable from one successor but not from the other, not counting ways
+				// that come back through this very test (the next parent / the next vertex)
+				cut := map[Edge]bool{{b, 0}: true, {b, 1}: true}
+				reach := func(s *ssa.BasicBlock) bool {
+					if s == siteB {
+						return true
+					}
+					return reachable([]*ssa.BasicBlock{s}, cut)[siteB]
+				}
+				r0, r1 := reach(b.Succs[0]), reach(b.Succs[1])
+				if r0 == r1 || !onCycleWith(b, siteB) {
+					continue
+				}
+				n++
+				var states []ssa.Value
+				skipStateOf(iff.Cond, map[ssa.Value]bool{}, &states)
+				for _, st := range states {
+					var cb *ssa.BasicBlock
+					switch x := st.(type) {
+					case *ssa.Alloc:
+						cb = x.Block()
+					case *ssa.MakeMap:
+						cb = x.Block()
+					case *ssa.FreeVar, *ssa.Parameter:
+						// handed in from outside this function: lives at least as long as one call of it
+						if !loopAbove[li] {
+							bad += fmt.Sprintf(" %s (handed into %s, which runs once per load) decides the branch at %s;", pathOf(st), shortFn(lv.fn), lineOf(w, iff))
+						}
+						continue
+					}
+					if cb == nil {
+						continue
+					}
+					if loopAbove[li] || onCycleWith(cb, siteB) {
+						continue
+					}
+					bad += fmt.Sprintf(" %s, created once at %s, decides the branch at %s that bypasses the link;", pathOf(st), w.Pos(st.Pos()), lineOf(w, iff))
+				}
+			}
+		}
+		r.check(bad == "", rule, "LoadDag/AddEdge", lineOf(w, d.c), "what can skip a parent link does not outlive the vertex being linked", bad)
+	}
+	r.Extra["loaddag_skip_branches"] = n
 }
